@@ -31,7 +31,9 @@ Print Assumptions C30_pinned_block_ub_refuted.
 Example C30_nonvacuous :
   let t := Struct (FCons 2 8 (Vector 2 1 3 (Indexed [(1, 1); (2, 4)] (Basic 4)))
                   (FCons 1 0 (Subarray true [(4, 2, 1); (3, 2, 0)] (Basic 2)) FNil)) in
-  (1 <= 2 /\ (1 <= 2 /\ 1 <= 1 /\ 0 <= 3 /\ [(1, 1); (2, 4)] <> [] /\ Forall (fun b => 1 <= fst b) [(1, 1); (2, 4)] /\ 0 < 4)) /\
-  csize (build t) = 56 /\ clb (build t) = 0 /\ cub (build t) = 180 /\
-  firstn 6 (cser (build t) 0 2) = [12; 13; 14; 15; 24; 25].
-Proof. cbn zeta. repeat split; try lia; try congruence; try (repeat constructor; cbn; lia); vm_compute; reflexivity. Qed.
+  wf t /\ csize (build t) = 56 /\ clb (build t) = 0 /\ cub (build t) = 172 /\
+  firstn 8 (cser (build t) 0 2) = [12; 13; 14; 15; 24; 25; 26; 27].
+Proof.
+  cbn zeta. split; [|vm_compute; repeat split; reflexivity].
+  cbn [wf wf_flds]. repeat split; try lia; try congruence; repeat (constructor; cbn; try lia).
+Qed.
